@@ -227,8 +227,14 @@ def describe(fn):
     for n in sorted([x for x in _own_nodes(fn) if isinstance(x, ast.For)],
                     key=lambda x: (x.lineno, x.col_offset)):
         loops.append([_n(n.target), _n(n.iter)])
+    calls = {}
+    for n in _own_nodes(fn):
+        if isinstance(n, ast.Call):
+            t = _n(n)
+            if len(t) < 200:
+                calls[t] = calls.get(t, 0) + 1
     return {'params': params, 'locals': locs, 'defs': _defs_of(fn),
-            'tests': tests, 'loops': loops}
+            'tests': tests, 'loops': loops, 'calls': calls}
 
 
 def build_reference(repo_root):
@@ -1066,7 +1072,7 @@ def _single_assign(fn, name):
     return None
 
 
-def _inline_temp(fn, name, allow_calls=False):
+def _inline_temp(fn, name, allow_calls=False, ref_calls=None):
     h = _single_assign(fn, name)
     if h is None:
         return False
@@ -1084,6 +1090,9 @@ def _inline_temp(fn, name, allow_calls=False):
         if len(calls) != 1 or calls[0] is not val or not all(
                 _pure_lookup(a_) for a_ in val.args) or val.keywords or \
                 not isinstance(val.func, ast.Attribute):
+            return False
+        # only towards a recorded form: the reference repeats this call
+        if (ref_calls or {}).get(_n(val), 0) < len(loads):
             return False
     # all uses come after the definition, in its block or nested in a later
     # statement of its block
@@ -1160,6 +1169,52 @@ def _live_range(fn, name):
     lines = [x.lineno for x in _own_nodes(fn) if isinstance(x, ast.Name)
              and x.id == name]
     return (min(lines), max(lines)) if lines else (0, 0)
+
+
+def _loops_to_comprehensions(fn, rf, log, q):
+    """`X = []` + `for v in S: X.append(E)`  ->  `X = [E for v in S]` where
+    the reference defines X by a comprehension."""
+    rdefs = rf.get('defs', {})
+    comp_defs = {nm for nm, ds in rdefs.items()
+                 if any(d.startswith('[') and ' for ' in d for d in ds)
+                 and '[]' not in ds}
+    all_comp_texts = {d for ds in rdefs.values() for d in ds
+                      if d.startswith('[') and ' for ' in d}
+    if not all_comp_texts:
+        return
+    for blk in _blocks(fn):
+        i = 0
+        while i + 1 < len(blk):
+            a, b = blk[i], blk[i + 1]
+            if isinstance(a, ast.Assign) and len(a.targets) == 1 and \
+                    isinstance(a.targets[0], ast.Name) and isinstance(
+                        a.value, ast.List) and not a.value.elts and \
+                    isinstance(b, ast.For) and not b.orelse and \
+                    len(b.body) == 1:
+                x = a.targets[0].id
+                inner = b.body[0]
+                cond = None
+                if isinstance(inner, ast.If) and not inner.orelse and \
+                        len(inner.body) == 1:
+                    cond = inner.test
+                    inner = inner.body[0]
+                if isinstance(inner, ast.Expr) and isinstance(
+                        inner.value, ast.Call) and _n(inner.value.func) == \
+                        x + '.append' and len(inner.value.args) == 1:
+                    comp = ast.ListComp(
+                        elt=inner.value.args[0],
+                        generators=[ast.comprehension(
+                            target=b.target, iter=b.iter,
+                            ifs=[cond] if cond is not None else [],
+                            is_async=0)])
+                    if x in comp_defs or _n(comp) in all_comp_texts:
+                        a.value = ast.copy_location(comp, a.value)
+                        del blk[i + 1]
+                        log.append('%s: append loop for %s restored to a '
+                                   'comprehension' % (q, x))
+                        continue
+            i += 1
+    ast.fix_missing_locations(fn)
 
 
 def _inline_hoisted(fn, rf, log, q):
@@ -1267,7 +1322,8 @@ def _temps_and_names(fn, rf, log, q):
                     break
             if not done:
                 for c_ in reversed(cur_only):
-                    if _inline_temp(fn, c_, allow_calls=True):
+                    if _inline_temp(fn, c_, allow_calls=True,
+                                    ref_calls=rf.get('calls', {})):
                         log.append('%s: temporary %s (getter call) inlined'
                                    % (q, c_))
                         done = True
@@ -1375,6 +1431,7 @@ def canonicalise(tree, modname, text=None):
             continue            # unchanged forms: nothing to rewrite
         n0 = len(log)
         _inline_hoisted(fn, rf, log, q)
+        _loops_to_comprehensions(fn, rf, log, q)
         _unroll_literal_loops(fn, rf, log, q)
         _orient_ifs(fn, rf, log, q)
         _loops_to_reference(fn, rf, log, q)
